@@ -7,8 +7,10 @@ from harness import core, env, r1cs, ir
 
 RULE = ("structured programs (assignments of +,-,* expressions over tracked variables; if/elif/else on secret "
         "conditions: comparisons, boolean inputs, raw 0/1 LinCombs, &, ~; while loops with a secret condition, a public "
-        "bound and _breakif; for loops over _range(secret_stop, max=M) with and without checkstopmax; lazily evaluated "
-        "if_then_else), nesting depth <= 3, rendered to two source texts: the documented oblivious idiom (one statement "
+        "bound and _breakif; for loops over _range(secret_stop, max=M) with and without checkstopmax, with a start argument, "
+        "and over a range object kept in a variable and iterated again by nested or later loops; variables that first come "
+        "into existence in every branch of an if/else; the whole program at module level or inside a function with its own "
+        "context; lazily evaluated if_then_else), nesting depth <= 3, rendered to two source texts: the documented oblivious idiom (one statement "
         "per line, exec'd on the recorder) and a native-Python twin on plain integers. Oracle: every tracked variable "
         "ends with the native value; all emitted constraints satisfied; guard state clean and block stack empty; the "
         "canonical trace is identical for a second input vector that takes other branches / iteration counts. "
@@ -96,6 +98,14 @@ class G:
             for _ in range(d(st.integers(0, 2))):
                 arms.append([self.cond(), self.block(depth + 1)])
             els = self.block(depth + 1) if d(st.booleans()) else None
+            if depth == 0 and d(st.integers(0, 3)) == 0:
+                # a variable that does not exist before the statement and is assigned in EVERY branch (else included):
+                # it exists afterwards, as in plain Python, and is read by the next statement
+                if els is None:
+                    els = self.block(depth + 1)
+                self.counter += 1
+                return ["if", arms, els, {"new": self.counter, "target": d(st.integers(0, self.nvars - 1)),
+                                          "exprs": [self.expr() for _ in range(len(arms) + 1)]}]
             return ["if", arms, els]
         self.counter += 1
         if k <= 8:
@@ -252,25 +262,38 @@ def _render(case, obl):
             emit(ind, "_.m[%d][%d] = %s" % (s[1], s[2], r_expr(s[3], obl)))
         elif t == "if":
             arms, els = s[1], s[2]
+            new = s[3] if len(s) > 3 else None
+
+            def newvar(i, ind_):
+                if new:
+                    emit(ind_, "_.n%d = %s" % (new["new"], r_expr(new["exprs"][i], obl)))
             if obl:
                 emit(ind, "if _if(%s):" % r_cond(arms[0][0], obl))
+                newvar(0, ind + 1)
                 block(arms[0][1], ind + 1)
-                for c, blk in arms[1:]:
+                for i, (c, blk) in enumerate(arms[1:]):
                     emit(ind, "if _elif(lambda: %s):" % r_cond(c, obl))
+                    newvar(i + 1, ind + 1)
                     block(blk, ind + 1)
                 if els:
                     emit(ind, "if _else():")
+                    newvar(len(arms), ind + 1)
                     block(els, ind + 1)
                 emit(ind, "_endif()")
             else:
                 emit(ind, "if %s:" % r_cond(arms[0][0], obl))
+                newvar(0, ind + 1)
                 block(arms[0][1], ind + 1)
-                for c, blk in arms[1:]:
+                for i, (c, blk) in enumerate(arms[1:]):
                     emit(ind, "elif %s:" % r_cond(c, obl))
+                    newvar(i + 1, ind + 1)
                     block(blk, ind + 1)
                 if els:
                     emit(ind, "else:")
+                    newvar(len(arms), ind + 1)
                     block(els, ind + 1)
+            if new:
+                emit(ind, "_.x%d = _.n%d" % (new["target"], new["new"]))
         elif t == "while":
             _, c, m, body, brk, pos, cid = s
             k = "k%d" % cid
@@ -452,6 +475,8 @@ def kinds_in(case):
             if depth >= 2:
                 out.add("depth>=2")
             if s[0] == "if":
+                if len(s) > 3 and s[3]:
+                    out.add("variable-defined-in-every-branch")
                 if len(s[1]) > 1:
                     out.add("elif")
                 if s[2]:
